@@ -55,6 +55,18 @@ func delFullAssign(c *cases.Del, hash *big.Int) frontend.Circuit {
 type strategy struct {
 	name  string
 	hints func(fired *int) rmon.Hints
+	// applies decides cheaply, from the index values of the case and the oracle's verdict, whether the
+	// strategy can fire at all and is informative (a dishonest hint on a valid input proves nothing)
+	applies func(indices []*big.Int, valid bool) bool
+}
+
+func anyIndex(indices []*big.Int, pred func(*big.Int) bool) bool {
+	for _, v := range indices {
+		if pred(v) {
+			return true
+		}
+	}
+	return false
 }
 
 func modInv2(j int, m *big.Int) *big.Int {
@@ -94,6 +106,9 @@ func nonBooleanSplit(v *big.Int, n, j int, m *big.Int) []*big.Int {
 func indexStrategies(n int, m *big.Int) []strategy {
 	lim := new(big.Int).Lsh(big.NewInt(1), uint(n))
 	mask := new(big.Int).Sub(lim, big.NewInt(1))
+	tooWide := func(indices []*big.Int, valid bool) bool {
+		return !valid && anyIndex(indices, func(v *big.Int) bool { return v.Cmp(lim) >= 0 })
+	}
 	mk := func(name string, j int) strategy {
 		return strategy{name, func(fired *int) rmon.Hints {
 			return rmon.Hints{rmon.NBitsID: rmon.NBitsWhen(nil, n, func(v *big.Int, nn int) []*big.Int {
@@ -102,7 +117,7 @@ func indexStrategies(n int, m *big.Int) []strategy {
 				}
 				return nonBoolean(v, nn, new(big.Int).And(v, mask), j, m)
 			}, fired)}
-		}}
+		}, tooWide}
 	}
 	out := []strategy{mk("Nnb(0)", 0)}
 	if n > 1 {
@@ -120,7 +135,7 @@ func indexStrategies(n int, m *big.Int) []strategy {
 			}
 			return rmon.BitsOf(new(big.Int).Add(new(big.Int).And(v, mask), big.NewInt(1)), nn)
 		}, fired)}
-	}})
+	}, tooWide})
 	return out
 }
 
@@ -134,7 +149,7 @@ func invZeroStrategies(m *big.Int, seed int64) []strategy {
 				}
 				return big.NewInt(0)
 			}, fired)}
-		}},
+		}, func(_ []*big.Int, valid bool) bool { return !valid }},
 		{"Zg", func(fired *int) rmon.Hints {
 			return rmon.Hints{rmon.InvZeroID: rmon.InvZeroWhen(func(q, a *big.Int) *big.Int {
 				if a.Sign() == 0 {
@@ -143,7 +158,7 @@ func invZeroStrategies(m *big.Int, seed int64) []strategy {
 				g := new(big.Int).Add(new(big.Int).ModInverse(a, q), big.NewInt(1+seed%7))
 				return g.Mod(g, q)
 			}, fired)}
-		}},
+		}, func(_ []*big.Int, valid bool) bool { return !valid }},
 		{"Zg0", func(fired *int) rmon.Hints {
 			return rmon.Hints{rmon.InvZeroID: rmon.InvZeroWhen(func(q, a *big.Int) *big.Int {
 				if a.Sign() != 0 {
@@ -151,13 +166,13 @@ func invZeroStrategies(m *big.Int, seed int64) []strategy {
 				}
 				return big.NewInt(12345 + seed)
 			}, fired)}
-		}},
+		}, func(indices []*big.Int, valid bool) bool { return len(indices) > 0 && indices[0].Bit(0) == 0 }},
 	}
 }
 
 // judge runs one assignment under the honest table and the given dishonest
 // ones and compares with the oracle's verdict.
-func judge(run *evid.Run, sys *rmon.Sys, key, class string, valid bool, as frontend.Circuit, strategies []strategy, sig string, sample map[string]any) {
+func judge(run *evid.Run, sys *rmon.Sys, key, class string, valid bool, as frontend.Circuit, strategies []strategy, indices []*big.Int, sig string, sample map[string]any) {
 	res := sys.Solve(as, nil)
 	if res.EvalErr != "" {
 		run.Violate(key+"/eval", "independent evaluator disagrees with the solver: "+res.EvalErr, sample)
@@ -175,6 +190,9 @@ func judge(run *evid.Run, sys *rmon.Sys, key, class string, valid bool, as front
 	}
 	run.Case(class, true, sig, res.Accepted, sample)
 	for _, st := range strategies {
+		if st.applies != nil && !st.applies(indices, valid) {
+			continue
+		}
 		fired := 0
 		r2 := sys.Solve(as, st.hints(&fired))
 		if fired == 0 {
